@@ -14,7 +14,8 @@ ASSUMPTIONS = [
     "statistics are recomputed by the oracle on X[b_i:b_{i+1}] with the same callable; bounds are generated around the data's segment statistics so that boundary comparisons occur",
 ]
 
-STATS = ["np.mean", "np.median", "np.max", "range", "second_smallest", "first", "last", "method_std"]
+STATS = ["np.mean", "np.median", "np.max", "range", "second_smallest", "first", "last", "method_std", "sample_std", "lag1_autocorr",
+         "roughness", "iqr"]
 
 
 @st.composite
@@ -194,7 +195,8 @@ FACETS = [
     Facet(name="flagged_segments", check=check, strategy=cases,
           rule=("wrapped detector in {user-defined FixedChangeDetector with generated changepoints, PELT, MovingWindow, "
                 "SeededBinarySegmentation with generated settings}, stat in {mean, median, max, range, second smallest, first, last, x.std() (user "
-                "functions)}, bounds lo<=hi drawn from the data's own statistics or floats, univariate data as 2-D/1-D ndarray, "
+                "functions; also statistics that are NaN on some segments - sample std of one point, autocorrelation of a flat stretch - and "
+                "order-aware ones: roughness, inter-quartile range)}, bounds lo<=hi drawn from the data's own statistics or floats, univariate data as 2-D/1-D ndarray, "
                 "Series or DataFrame with generated index; optionally followed, on the same anomaliser, by set_params on the user's detector + a new fit, "
                 "or by predict / fit+predict after the caller's buffer was refilled in place; non-trivial = >= 1 flagged segment"),
           n_quick=800, n_thorough=8000, shards_quick=8, shards_thorough=16),
